@@ -1,8 +1,9 @@
-(* Properties_C11.v — C11: filtering equals projecting the unfiltered result (JSON reader; the MessagePack
-   reader is tied by correspondence and the independent projection oracle). *)
+(* Properties_C11.v — C11: filtering equals projecting the unfiltered result (JSON reader, then the MessagePack
+   reader). *)
 From Coq Require Import NArith ZArith List Bool.
 From AJ Require Import Model.Base Model.Value Model.JsonParse.
 From AJ Require Import Spec.Rfc8259 Spec.ParseSpec Spec.FilterSpec Proofs.Lex Proofs.ParseComplete Proofs.FilterProofs.
+From AJ Require Import Model.MsgPack Spec.MsgPackSpec Proofs.MsgPackFilter.
 
 (* for every text of the grammar (within the limits) and EVERY filter document f, the filtered run succeeds
    and yields exactly project f v, where v is what the unfiltered run yields (C01_valid_json_denotes) and
@@ -36,6 +37,40 @@ Theorem C11_discarded_values_are_skipped : forall cf, decode_unicode cf = true -
     exists s', skip_variant cf fuel L s = (Ok, s') /\ post s' rest /\ found s' = true.
 Proof. exact skip_variant_complete. Qed.
 Print Assumptions C11_discarded_values_are_skipped.
+
+(* ---- MessagePack reader: for EVERY legal encoding b (Spec/MsgPackSpec.v: every width of every family) of an object v
+   within the size limits and EVERY filter document f, the filtered run consumes exactly b and yields project f of what
+   the unfiltered run yields (C09_decodes_every_legal_encoding) ---- *)
+Theorem C11_msgpack_filtering_is_projection : forall cf v b, MpEnc v b -> mp_limits v -> forall f L rest,
+  (mpv_depth v <= L)%nat ->
+  mp_run cf (Some f) L (b ++ rest) =
+    {| mp_err := Ok; mp_doc := project f (mp_den (use_double cf) v);
+       mp_rd := {| m_rest := rest; m_reads := N.of_nat (length b) |} |}.
+Proof. exact mp_run_filtered_is_projection. Qed.
+Print Assumptions C11_msgpack_filtering_is_projection.
+
+(* only what the filter keeps (and every key) has to fit the size limits: a 65536-byte string in a discarded member
+   is skipped, not refused *)
+Theorem C11_msgpack_filtering_is_projection_under : forall cf v b f, MpEnc v b -> mp_limits_under f v ->
+  forall L dst rest k, (mpv_depth v <= L)%nat ->
+  mp_parse cf L (Some f) dst {| m_rest := b ++ rest; m_reads := k |}
+    = (Ok, project f (mp_den (use_double cf) v), {| m_rest := rest; m_reads := (k + N.of_nat (length b))%N |}).
+Proof. exact mp_filtered_is_projection_under. Qed.
+Print Assumptions C11_msgpack_filtering_is_projection_under.
+
+(* a filter equal to true changes nothing, on EVERY input (malformed included) *)
+Theorem C11_msgpack_true_is_identity : forall cf f, equals_true f = true ->
+  forall L i, mp_run cf (Some f) L i = mp_run cf None L i.
+Proof. exact mp_run_filter_equals_true. Qed.
+Print Assumptions C11_msgpack_true_is_identity.
+
+(* a discarded value is skipped: consumed exactly, nothing built, strings / bin / ext of any size *)
+Theorem C11_msgpack_discarded_values_are_skipped : forall cf v b, MpEnc v b -> mp_limits_skip v ->
+  forall f L dst rest k, f_allow (Some f) = false -> (mpv_depth v <= L)%nat ->
+  mp_parse cf L (Some f) dst {| m_rest := b ++ rest; m_reads := k |}
+    = (Ok, JNull, {| m_rest := rest; m_reads := (k + N.of_nat (length b))%N |}).
+Proof. exact mp_discarded_values_are_skipped. Qed.
+Print Assumptions C11_msgpack_discarded_values_are_skipped.
 
 Example C11_example :   (* {"a":1,"b":{"c":2,"d":3},"e":[1,2]} filtered by {"b":{"c":true},"*":false,"e":[false]} *)
   project (JObj [([98%N], JObj [([99%N], JBool true)]); ([42%N], JBool false); ([101%N], JArr [JBool false])])
